@@ -296,3 +296,409 @@ Proof.
   erewrite step_index; [|reflexivity|intros top; apply (open_kind_leaf top)].
   cbn. unfold lookup in Hl. rewrite Hl. cbn. rewrite Z.eqb_refl. cbn. rewrite (recv_top _ _ Ht). rewrite Hc. reflexivity.
 Qed.
+
+(* ------------------------------------------------------------------ the main induction *)
+Definition PA (t : obj) : Prop :=
+  forall n sc vis imm vis' st, wf_at sc vis imm n t = Some vis' -> okst sc vis imm n st ->
+    run (slice n t) st = Some (adv st [val_of n t] (regs_of n t) (heap_of n t) (opens t))
+    /\ (forall k, mem k vis' = true -> mem k vis = true \/ (sc = true /\ mem k (regs_of n t) = true)).
+
+Lemma adv_id st : s_inopen st = None -> adv st [] [] [] 0 = st.
+Proof.
+  intros H. destruct st as [s i c h]. cbn in H. subst i. unfold adv. cbn [s_stack s_counter s_heap].
+  rewrite reg_many_nil, app_nil_r, Z.add_0_r. f_equal. destruct s as [|f r]; [reflexivity|]. destruct f; reflexivity.
+Qed.
+
+Lemma run_list xs : Forall PA xs -> forall n sc vis imm vis' st,
+  wf_list sc imm vis n xs = Some vis' -> okst sc vis imm n st ->
+  run (slice_list n xs) st = Some (adv st (vals_list n xs) (regs_list n xs) (heap_list n xs) (opens_list xs))
+  /\ (forall k, mem k vis' = true -> mem k vis = true \/ (sc = true /\ mem k (regs_list n xs) = true)).
+Proof.
+  induction 1 as [|x r Hx Hr IH]; intros n sc vis imm vis' st W O.
+  - cbn in W. inversion W; subst vis'. split; [|auto].
+    cbn [slice_list run vals_list regs_list heap_list opens_list]. rewrite (adv_id _ (ok_in _ _ _ _ _ O)). reflexivity.
+  - rewrite wf_list_cons in W. destruct (wf_at sc vis imm n x) as [v1|] eqn:W1; [|discriminate].
+    destruct (Hx n sc vis imm v1 st W1 O) as [R1 S1].
+    assert (O2 : okst sc v1 imm (n + opens x) (adv st [val_of n x] (regs_of n x) (heap_of n x) (opens x))).
+    { apply okst_adv with (vis := vis); [exact O|exact S1]. }
+    destruct (IH (n + opens x) sc v1 imm vis' _ W O2) as [R2 S2].
+    split.
+    + rewrite slice_list_cons, run_app, R1, R2, adv_adv. reflexivity.
+    + intros k Hk. change (regs_list n (x :: r)) with (regs_of n x ++ regs_list (n + opens x) r). rewrite mem_app.
+      destruct (S2 k Hk) as [H1|[H1 H2]].
+      * destruct (S1 k H1) as [H3|[H3 H4]]; [left; exact H3|right; split; [exact H3|rewrite H4; reflexivity]].
+      * right. split; [exact H1|rewrite H2; apply orb_true_r].
+Qed.
+
+Lemma hazard_mono c l (P1 P2 : Z -> bool) : (forall k, P1 k = true -> P2 k = true) ->
+  forall o, hazard_pos c o l P2 = false -> hazard_pos c o l P1 = false.
+Proof.
+  intros M. induction l as [|v r IH]; intros o H; [reflexivity|]. cbn [hazard_pos] in *.
+  apply orb_false_iff in H as [H1 H2]. rewrite (IH _ H2), orb_false_r.
+  destruct c, o, v; try reflexivity; destruct (P1 k) eqn:E; try reflexivity; rewrite (M _ E) in H1; discriminate.
+Qed.
+
+Lemma even_len_vals xs : forall m, even_len (vals_list m xs) = even_len xs.
+Proof.
+  assert (G : forall k xs, (List.length xs <= k)%nat -> forall m, even_len (vals_list m xs) = even_len xs).
+  { induction k as [|k IH]; intros l L m.
+    - destruct l; [reflexivity|cbn in L; lia].
+    - destruct l as [|a [|b l]]; [reflexivity|reflexivity|]. cbn [vals_list even_len]. apply IH. cbn in L. lia. }
+  intros m. apply (G (List.length xs)). lia.
+Qed.
+Lemma even_bytes_vals xs : forall m, even_attr xs = true -> even_bytes (vals_list m xs) = true.
+Proof.
+  assert (G : forall k xs, (List.length xs <= k)%nat -> forall m, even_attr xs = true -> even_bytes (vals_list m xs) = true).
+  { induction k as [|k IH]; intros l L m E.
+    - destruct l; [reflexivity|cbn in L; lia].
+    - destruct l as [|a [|b l]]; [reflexivity|destruct a; discriminate|].
+      destruct a; try discriminate. cbn [vals_list even_bytes val_of is_bytes andb]. cbn [even_attr] in E. apply IH; [cbn in L; lia|exact E]. }
+  intros m. apply (G (List.length xs)). lia.
+Qed.
+
+Lemma step_close f r cnt hp n c :
+  f_kind f = KC c -> f_open f = n ->
+  (match c with CDict => even_len (rev (f_items f)) | CCopy _ => even_bytes (rev (f_items f)) | _ => true end) = true ->
+  frame_hazard f r = false -> top_ok r = true ->
+  step {| s_stack := f :: r; s_inopen := None; s_counter := cnt; s_heap := hp |} (TClose n) =
+  Some {| s_stack := match r with g :: q => push_item (VPtr (f_count f)) g :: q | [] => [] end;
+          s_inopen := None; s_counter := cnt;
+          s_heap := hp ++ [(f_count f, {| n_kind := c; n_items := rev (f_items f) |})] |}.
+Proof.
+  intros K Op Sh Hz Tp. unfold step. cbn [s_inopen s_stack s_counter s_heap]. rewrite Op, Z.eqb_refl, K, Hz.
+  unfold seal. rewrite K. rewrite Sh. rewrite (recv_top _ _ Tp). reflexivity.
+Qed.
+
+Lemma mem_self n l : mem n (n :: l) = true.
+Proof. cbn. rewrite Z.eqb_refl. reflexivity. Qed.
+
+Lemma run_cont c xs : Forall PA xs -> PA (OCont c xs).
+Proof.
+  intros F n sc vis imm vis' st W O.
+  rewrite wf_at_cont in W. cbv zeta in W.
+  set (imm' := if is_imm_c c then n :: imm else imm) in *.
+  set (sc' := sc || is_scope c) in *.
+  set (vis1 := if sc' && tracked c then n :: vis else vis) in *.
+  destruct (shape_ok c xs && negb (hazard_pos c false (vals_list (n + 1) xs) (fun k => mem k imm'))
+            && negb match c with CTuple | CFrozen => existsb (ref_into imm') xs | _ => false end) eqn:G; [|discriminate].
+  apply andb_true_iff in G as [G _]. apply andb_true_iff in G as [S Hz]. apply negb_true_iff in Hz.
+  destruct (wf_list sc' imm' vis1 (n + 1) xs) as [v|] eqn:WL; [|discriminate]. inversion W; subst vis'; clear W.
+  destruct O as [Hi Hc Ht Hs Hv Hm].
+  set (S' := if registers c then reg_many [n] (s_stack st) else s_stack st).
+  set (st1 := {| s_stack := newframe (KC c) n n :: S'; s_inopen := None; s_counter := n + 1; s_heap := s_heap st |}).
+  assert (HS' : S' = reg_many (if registers c then [n] else []) (s_stack st)).
+  { unfold S'. destruct (registers c); [reflexivity|rewrite reg_many_nil; reflexivity]. }
+  assert (Himm : forall k, open_imm (newframe (KC c) n n :: S') k = true -> mem k imm' = true).
+  { intros k. unfold open_imm at 1. cbn [existsb newframe f_kind f_count is_imm]. fold (open_imm S' k).
+    rewrite HS', open_imm_reg. unfold imm'. intros H. apply orb_true_iff in H as [H|H].
+    - apply andb_true_iff in H as [H1 H2]. rewrite H1. apply Z.eqb_eq in H2. subst k. apply mem_self.
+    - apply Hm in H. destruct (is_imm_c c); [cbn; rewrite H; apply orb_true_r|exact H]. }
+  assert (O1 : okst sc' vis1 imm' (n + 1) st1).
+  { split; try reflexivity.
+    - intros E. unfold st1. cbn [s_stack]. unfold has_scope. cbn [existsb]. fold (has_scope S').
+      rewrite HS', has_scope_reg. unfold is_scope_frame at 1. cbn [newframe f_kind]. unfold sc' in E.
+      apply orb_true_iff in E as [E|E]; [rewrite (Hs E); apply orb_true_r|rewrite E; reflexivity].
+    - intros k Hk. unfold st1. cbn [s_stack]. unfold lookup. cbn [existsb]. fold (lookup k S').
+      rewrite HS', lookup_reg. unfold vis1 in Hk.
+      destruct (sc' && tracked c) eqn:T.
+      + apply andb_true_iff in T as [T1 T2]. pose proof (tracked_registers _ T2) as Rg. rewrite Rg.
+        pose proof (registers_not_scope _ Rg) as NS. unfold sc' in T1. rewrite NS, orb_false_r in T1.
+        cbn [mem] in Hk. apply orb_true_iff in Hk as [Hk|Hk].
+        * rewrite (Hs T1). cbn [mem]. rewrite Hk. cbn. rewrite !orb_true_r. reflexivity.
+        * rewrite (Hv _ Hk). cbn. apply orb_true_r.
+      + rewrite (Hv _ Hk). cbn. apply orb_true_r.
+    - exact Himm. }
+  destruct (run_list xs F (n + 1) sc' vis1 imm' v st1 WL O1) as [R Sub].
+  split.
+  - rewrite slice_cont.
+    change (TOpen n :: strs (opentype_of c) ++ slice_list (n + 1) xs ++ [TClose n])
+      with ((TOpen n :: strs (opentype_of c)) ++ slice_list (n + 1) xs ++ [TClose n]).
+    rewrite run_app, (run_open c xs st n S Hi Hc). fold S'. fold st1. rewrite run_app, R. cbn [run].
+    unfold adv at 1. unfold st1 at 1 2 3. cbn [s_stack s_counter s_heap].
+    cbn [reg_many map push_many].
+    destruct (s_stack st) as [|g q] eqn:Es; [discriminate|].
+    assert (Tp : top_ok (map (reg1 (regs_list (n + 1) xs)) S') = true).
+    { rewrite HS'. cbn [reg_many map top_ok]. rewrite !kind_reg1. exact Ht. }
+    erewrite step_close with (c := c).
+    + cbn [set_items f_count f_items]. rewrite count_reg1, items_reg1. cbn [newframe f_count f_items].
+      rewrite app_nil_r, rev_involutive.
+      rewrite regs_of_cont, heap_of_cont, opens_cont. unfold adv. cbn [s_stack s_counter s_heap]. rewrite Es.
+      f_equal. f_equal.
+      * fold (reg_many (regs_list (n + 1) xs) S'). rewrite HS', reg_many_app.
+        cbn [reg_many map push_many]. unfold push_item, set_items. cbn [rev app]. reflexivity.
+      * lia.
+      * rewrite app_assoc. reflexivity.
+    + cbn [set_items f_kind]. rewrite kind_reg1. reflexivity.
+    + cbn [set_items f_open]. rewrite open_reg1. reflexivity.
+    + cbn [set_items f_items]. rewrite items_reg1. cbn [newframe f_items]. rewrite app_nil_r, rev_involutive.
+      destruct c; try reflexivity; cbn [shape_ok] in S.
+      * rewrite even_len_vals. exact S.
+      * apply even_bytes_vals. exact S.
+    + unfold frame_hazard. cbn [set_items f_kind f_items]. rewrite kind_reg1, items_reg1. cbn [newframe f_kind f_items].
+      rewrite app_nil_r, rev_involutive. apply hazard_mono with (P2 := fun k => mem k imm'); [|exact Hz].
+      intros k Hk. apply Himm. revert Hk. unfold open_imm. cbn [existsb set_items f_kind f_count].
+      rewrite kind_reg1, count_reg1. cbn [newframe f_kind f_count].
+      fold (open_imm (map (reg1 (regs_list (n + 1) xs)) S') k). fold (reg_many (regs_list (n + 1) xs) S'). rewrite open_imm_reg.
+      fold (open_imm S' k). auto.
+    + exact Tp.
+  - intros k Hk. rewrite regs_of_cont, mem_app. destruct (is_scope c) eqn:Sc; [left; exact Hk|].
+    assert (Esc : sc' = sc) by (unfold sc'; try rewrite Sc; apply orb_false_r).
+    destruct (Sub k Hk) as [H|[H1 H2]].
+    + unfold vis1 in H. destruct (sc' && tracked c) eqn:T; [|left; exact H].
+      apply andb_true_iff in T as [T1 T2]. cbn [mem] in H. apply orb_true_iff in H as [H|H]; [|left; exact H].
+      right. rewrite <- Esc. split; [exact T1|]. rewrite (tracked_registers _ T2). cbn [mem]. rewrite H. reflexivity.
+    + right. rewrite <- Esc. split; [exact H1|]. rewrite H2. apply orb_true_r.
+Qed.
+
+Theorem run_slice : forall t, PA t.
+Proof.
+  apply obj_ind'.
+  - intros t L n sc vis imm vis' st W O. destruct O as [Hi Hc Ht Hs Hv Hm].
+    destruct t; try discriminate.
+    1-3: (cbn in W; inversion W; subst vis'; split; [apply run_atom; auto|auto]).
+    1-4: (cbn in W; inversion W; subst vis'; split; [apply run_boxed; auto|auto]).
+    cbn [wf_at] in W. destruct (sc && mem k vis) eqn:E; [|discriminate]. inversion W; subst vis'.
+    apply andb_true_iff in E as [_ E]. split; [apply run_ref; auto|auto].
+  - intros c xs F. apply run_cont. exact F.
+Qed.
+
+(* ------------------------------------------------------------------ whole messages *)
+Lemma okst_init scoped n : okst scoped [] [] n (init scoped n).
+Proof.
+  split; try reflexivity.
+  - intros E. subst scoped. reflexivity.
+  - intros k H. discriminate.
+  - intros k H. cbn in H. discriminate.
+Qed.
+
+Lemma unslice_of_run scoped n ts vs ids h k :
+  run ts (init scoped n) = Some (adv (init scoped n) vs ids h k) -> unslice scoped n ts = Some (h, vs).
+Proof.
+  intros R. unfold unslice. rewrite R. unfold adv, init. cbn [s_stack s_inopen s_heap reg_many map push_many].
+  cbn [set_items f_items]. rewrite items_reg1. cbn [root_frame f_items]. rewrite app_nil_r, rev_involutive. reflexivity.
+Qed.
+
+(* Stage 1+3 (one object): every well-formed term -- any nesting, bool vs int, bytes vs text, list vs tuple vs set vs
+   frozenset, back-references, a container inside itself, nested scopes -- is rebuilt as exactly the graph it denotes *)
+Theorem slice_unslice scoped n t : wf_obj scoped n t = true ->
+  unslice scoped n (slice n t) = Some (heap_of n t, [val_of n t]).
+Proof.
+  unfold wf_obj. destruct (wf_at scoped [] [] n t) as [v|] eqn:W; [|discriminate]. intros _.
+  destruct (run_slice t n scoped [] [] v (init scoped n) W (okst_init scoped n)) as [R _].
+  apply unslice_of_run with (ids := regs_of n t) (k := opens t). exact R.
+Qed.
+
+Lemma Forall_PA xs : Forall PA xs.
+Proof. apply Forall_forall. intros x _. apply run_slice. Qed.
+
+(* several top-level objects in a row (successive calls / answers on a connection; several objects on one storage Banana) *)
+Theorem slice_unslice_list scoped n ts v : wf_list scoped [] [] n ts = Some v ->
+  unslice scoped n (slice_list n ts) = Some (heap_list n ts, vals_list n ts).
+Proof.
+  intros W. destruct (run_list ts (Forall_PA ts) n scoped [] [] v (init scoped n) W (okst_init scoped n)) as [R _].
+  apply unslice_of_run with (ids := regs_list n ts) (k := opens_list ts). exact R.
+Qed.
+
+(* Stage 2: composition with the byte layer (TokenProofs.stream_roundtrip) *)
+Theorem bytes_roundtrip scoped n t bs : wf_obj scoped n t = true -> forallb wf_token (slice n t) = true ->
+  encode_stream (slice n t) = Ok bs ->
+  exists toks, decode bs = (toks, EndClean) /\ unslice scoped n toks = Some (heap_of n t, [val_of n t]).
+Proof.
+  intros W T E. exists (slice n t). split; [apply stream_roundtrip; assumption|apply slice_unslice; exact W].
+Qed.
+
+(* ------------------------------------------------------------------ Stage 4: scope isolation *)
+(* all references of a term point at or above lo *)
+Fixpoint refs_ge (lo : Z) (t : obj) : bool :=
+  match t with
+  | ORef k => lo <=? k
+  | OCont _ xs => (fix go (l : list obj) : bool := match l with [] => true | x :: r => refs_ge lo x && go r end) xs
+  | _ => true
+  end.
+Definition refs_ge_list (lo : Z) := fix go (l : list obj) : bool := match l with [] => true | x :: r => refs_ge lo x && go r end.
+
+Definition all_ge (lo : Z) (l : list Z) : Prop := forall k, mem k l = true -> lo <= k.
+
+Definition PR (t : obj) : Prop :=
+  forall lo sc vis imm n vis', wf_at sc vis imm n t = Some vis' -> all_ge lo vis -> lo <= n ->
+    refs_ge lo t = true /\ all_ge lo vis'.
+
+Lemma opens_nonneg : forall t, 0 <= opens t.
+Proof.
+  apply obj_ind'.
+  - intros t L. destruct t; try discriminate; cbn; lia.
+  - intros c xs F. rewrite opens_cont. assert (0 <= opens_list xs); [|lia].
+    induction F as [|x r Hx _ IH]; cbn; lia.
+Qed.
+
+Lemma refs_list xs : Forall PR xs -> forall lo sc vis imm n vis',
+  wf_list sc imm vis n xs = Some vis' -> all_ge lo vis -> lo <= n -> refs_ge_list lo xs = true /\ all_ge lo vis'.
+Proof.
+  induction 1 as [|x r Hx _ IH]; intros lo sc vis imm n vis' W A L.
+  - cbn in W. inversion W; subst. split; [reflexivity|exact A].
+  - rewrite wf_list_cons in W. destruct (wf_at sc vis imm n x) as [v1|] eqn:W1; [|discriminate].
+    destruct (Hx lo sc vis imm n v1 W1 A L) as [R1 A1].
+    pose proof (opens_nonneg x).
+    destruct (IH lo sc v1 imm (n + opens x) vis' W A1 ltac:(lia)) as [R2 A2].
+    split; [cbn [refs_ge_list]; rewrite R1; exact R2|exact A2].
+Qed.
+
+Theorem refs_in_range : forall t, PR t.
+Proof.
+  apply obj_ind'.
+  - intros t L lo sc vis imm n vis' W A Ln. destruct t; try discriminate; try (cbn in W; inversion W; subst; split; [reflexivity|exact A]).
+    cbn [wf_at] in W. destruct (sc && mem k vis) eqn:E; [|discriminate]. inversion W; subst.
+    apply andb_true_iff in E as [_ E]. split; [cbn; apply Z.leb_le; apply A; exact E|exact A].
+  - intros c xs F lo sc vis imm n vis' W A Ln. rewrite wf_at_cont in W. cbv zeta in W.
+    match type of W with (if ?b then _ else _) = _ => destruct b; [|discriminate] end.
+    match type of W with match ?w with _ => _ end = _ => destruct w as [v|] eqn:WL; [|discriminate] end.
+    inversion W; subst vis'; clear W.
+    assert (A1 : all_ge lo (if (sc || is_scope c) && tracked c then n :: vis else vis)).
+    { destruct ((sc || is_scope c) && tracked c); [|exact A]. intros k H. cbn [mem] in H.
+      apply orb_true_iff in H as [H|H]; [apply Z.eqb_eq in H; lia|apply A; exact H]. }
+    destruct (refs_list xs F lo _ _ _ (n + 1) v WL A1 ltac:(lia)) as [R A2].
+    split; [exact R|destruct (is_scope c); assumption].
+Qed.
+
+(* a scoped sequence that the sender can produce at OPEN number n when nothing is visible from outside
+   (successive calls on a Broker: the root slicer keeps no table) refers only to objects opened inside itself *)
+Theorem scope_refs_are_local nm xs imm n vis' :
+  wf_at false [] imm n (OCont (CScope nm) xs) = Some vis' -> refs_ge_list (n + 1) xs = true /\ vis' = [].
+Proof.
+  intros W. split.
+  - rewrite wf_at_cont in W. cbv zeta in W.
+    match type of W with (if ?b then _ else _) = _ => destruct b; [|discriminate] end.
+    match type of W with match ?w with _ => _ end = _ => destruct w as [v|] eqn:WL; [|discriminate] end.
+    cbn [is_scope tracked andb orb] in WL. try rewrite andb_false_r in WL.
+    assert (FP : Forall PR xs) by (apply Forall_forall; intros x _; apply refs_in_range).
+    destruct (refs_list xs FP (n + 1) _ _ _ (n + 1) v WL) as [R _];
+      [intros k H; discriminate|lia|exact R].
+  - rewrite wf_at_cont in W. cbv zeta in W.
+    match type of W with (if ?b then _ else _) = _ => destruct b; [|discriminate] end.
+    match type of W with match ?w with _ => _ end = _ => destruct w; [|discriminate] end.
+    cbn [is_scope] in W. inversion W. reflexivity.
+Qed.
+
+(* the receiver: once a call has been closed on a connection whose root keeps no table, no number resolves any more:
+   a reference arriving in the next call to anything outside that call is a dangling reference, whatever the number *)
+Theorem scope_isolation_receiver nm1 xs1 nm2 n k v :
+  wf_list false [] [] n [OCont (CScope nm1) xs1] = Some v ->
+  shape_ok (CScope nm2) [] = true ->
+  unslice false n (slice_list n [OCont (CScope nm1) xs1; OCont (CScope nm2) [ORef k]]) = None.
+Proof.
+  intros W S2.
+  destruct (run_list _ (Forall_PA _) n false [] [] v (init false n) W (okst_init false n)) as [R _].
+  unfold unslice. rewrite slice_list_cons, run_app.
+  change (slice_list n [OCont (CScope nm1) xs1]) with (slice n (OCont (CScope nm1) xs1) ++ []) in R. rewrite app_nil_r in R.
+  rewrite R. cbn [slice_list]. rewrite app_nil_r, slice_cont.
+  set (st := adv (init false n) _ _ _ _).
+  change (TOpen (n + opens (OCont (CScope nm1) xs1)) :: strs (opentype_of (CScope nm2)) ++ slice_list (n + opens (OCont (CScope nm1) xs1) + 1) [ORef k] ++ [TClose (n + opens (OCont (CScope nm1) xs1))])
+    with ((TOpen (n + opens (OCont (CScope nm1) xs1)) :: strs (opentype_of (CScope nm2))) ++ slice_list (n + opens (OCont (CScope nm1) xs1) + 1) [ORef k] ++ [TClose (n + opens (OCont (CScope nm1) xs1))]).
+  rewrite run_app, (run_open (CScope nm2) [] st (n + opens (OCont (CScope nm1) xs1)) S2 eq_refl).
+  2: { unfold st, adv. cbn [s_counter init vals_list opens_list]. lia. }
+  cbn [registers slice_list slice app].
+  change (strs ot_reference) with [TString (hd [] ot_reference)]. cbn [app run].
+  rewrite step_open; [|reflexivity].
+  erewrite step_index; [|reflexivity|intros top; apply (open_kind_leaf top)].
+  cbn [kind_registers]. unfold step at 1. cbn [s_inopen s_stack recv newframe f_kind f_items].
+  unfold st, adv, init. cbn [s_stack reg_many map push_many root_frame].
+  unfold lookup. cbn [existsb]. unfold is_scope_frame at 1 2. cbn [newframe set_items f_kind f_refs is_scope mem andb orb].
+  unfold is_scope_frame. cbn [set_items f_kind]. rewrite kind_reg1. cbn [f_kind]. reflexivity.
+Qed.
+
+(* ------------------------------------------------------------------ Stage 5: vocabulary transparency *)
+Definition no_vocab (t : token) : bool := match t with TVocab _ => false | _ => true end.
+
+Lemma vfind_in bs tbl i : vfind bs tbl = Some i -> In i (map snd tbl).
+Proof.
+  induction tbl as [|[s j] r IH]; cbn; [discriminate|]. destruct (list_eqb s bs); intros H.
+  - inversion H. left. reflexivity.
+  - right. apply IH. exact H.
+Qed.
+
+Lemma vfind_inv_vfind tbl : NoDup (map snd tbl) -> forall bs i, vfind bs tbl = Some i -> vfind_inv i tbl = Some bs.
+Proof.
+  induction tbl as [|[s j] r IH]; intros ND bs i H; cbn in *; [discriminate|].
+  inversion ND as [|? ? Hn ND']; subst.
+  destruct (list_eqb s bs) eqn:E.
+  - inversion H; subst. rewrite Z.eqb_refl. apply list_eqb_eq in E. subst. reflexivity.
+  - destruct (j =? i) eqn:J.
+    + apply Z.eqb_eq in J. subst j. exfalso. apply Hn. eapply vfind_in. exact H.
+    + apply IH; assumption.
+Qed.
+
+(* whatever table is in force (indices distinct), the receiver's expansion undoes the sender's abbreviation, for
+   every token sequence (opentype strings, user byte strings, text bodies alike) *)
+Theorem vocab_transparent tbl ts : NoDup (map snd tbl) -> forallb no_vocab ts = true ->
+  devocab tbl (envocab tbl ts) = Some ts.
+Proof.
+  intros ND. induction ts as [|t r IH]; intros NV; [reflexivity|].
+  cbn [forallb] in NV. apply andb_true_iff in NV as [N1 N2]. cbn [envocab map devocab]. fold (envocab tbl r). rewrite (IH N2).
+  destruct t; try discriminate; cbn [envocab1 devocab1]; try reflexivity.
+  destruct (vfind bs tbl) as [i|] eqn:F; cbn [devocab1]; [|reflexivity].
+  rewrite (vfind_inv_vfind tbl ND bs i F). reflexivity.
+Qed.
+
+Lemma slice_no_vocab : forall t n, forallb no_vocab (slice n t) = true.
+Proof.
+  apply (obj_ind' (fun t => forall n, forallb no_vocab (slice n t) = true)).
+  - intros t L n. destruct t; try discriminate; reflexivity.
+  - intros c xs F n. rewrite slice_cont. cbn [forallb no_vocab andb]. rewrite forallb_app. apply andb_true_iff. split.
+    + unfold strs. induction (opentype_of c); [reflexivity|cbn; assumption].
+    + rewrite forallb_app. apply andb_true_iff. split; [|reflexivity].
+      generalize (n + 1). induction F as [|x r Hx _ IH]; intros m; [reflexivity|].
+      rewrite slice_list_cons, forallb_app, Hx, IH. reflexivity.
+Qed.
+
+(* the property's "whatever vocabulary table is in force": object -> tokens -> abbreviated -> expanded -> object *)
+Theorem roundtrip_any_vocab scoped n t tbl : wf_obj scoped n t = true -> NoDup (map snd tbl) ->
+  exists toks, devocab tbl (envocab tbl (slice n t)) = Some toks /\ unslice scoped n toks = Some (heap_of n t, [val_of n t]).
+Proof.
+  intros W ND. exists (slice n t). split; [apply vocab_transparent; [exact ND|apply slice_no_vocab]|apply slice_unslice; exact W].
+Qed.
+
+(* the in-band table replacement is consumed by the receiver machine at top level and leaves no object behind *)
+Lemma parse_table_tokens tbl : forall acc n rest, parse_table (table_tokens tbl ++ TClose n :: rest) acc = Some (acc ++ tbl, rest).
+Proof.
+  induction tbl as [|[s i] r IH]; intros acc n rest; cbn [table_tokens app parse_table].
+  - rewrite app_nil_r. reflexivity.
+  - rewrite IH, <- app_assoc. reflexivity.
+Qed.
+
+(* ------------------------------------------------------------------ the known-defective region, on the model *)
+Definition nmA : list Z := [118;101;114;105;102;46;99;48;49;46;65].    (* "verif.c01.A" *)
+(* c = C(); K = (c,); c.x = K *)
+Definition witness_copy_attr : obj := OTuple [OCopy nmA [([120], ORef 0)]].
+(* c = C(); K = (c,); c.d = {K: 1} *)
+Definition witness_dict_key : obj := OTuple [OCopy nmA [([100], ODict [(ORef 0, OInt 1)])]].
+
+(* both are terms a sender produces (all references resolve; shapes fine) ... *)
+Definition sender_ok (t : obj) : bool :=
+  match run (slice 0 t) (init true 0) with Some _ => true | None => false end.
+
+Theorem refuted_copy_attr : unslice true 0 (slice 0 witness_copy_attr) = None /\ wf_obj true 0 witness_copy_attr = false.
+Proof. vm_compute. split; reflexivity. Qed.
+Theorem refuted_dict_key : unslice true 0 (slice 0 witness_dict_key) = None /\ wf_obj true 0 witness_dict_key = false.
+Proof. vm_compute. split; reflexivity. Qed.
+
+(* ------------------------------------------------------------------ non-vacuity *)
+Example ex_self_list : wf_obj true 0 (OList [ORef 0]) = true /\ unslice true 0 (slice 0 (OList [ORef 0])) = Some ([(0, {| n_kind := CList; n_items := [VPtr 0] |})], [VPtr 0]).
+Proof. vm_compute. split; reflexivity. Qed.
+Example ex_tuple_twice_through_dict :
+  wf_obj true 0 (ODict [(OInt 1, OTuple [OInt 1; OInt 2]); (OInt 2, ORef 1)]) = true.
+Proof. vm_compute. reflexivity. Qed.
+Example ex_cycle_through_tuple_and_list : wf_obj true 0 (OTuple [OList [ORef 0; OFrozen [OInt 1]]]) = true.
+Proof. vm_compute. reflexivity. Qed.
+Example ex_copy_in_cycle : wf_obj true 0 (OList [OCopy nmA [([120], ORef 0)]]) = true.
+Proof. vm_compute. reflexivity. Qed.
+Example ex_boundaries : forallb wf_token (slice 0 (OList [OInt (- 2 ^ 31); OInt (2 ^ 31); OInt (2 ^ 64); OInt (- 2 ^ 8192);
+                                                        OFloat [127; 240; 0; 0; 0; 0; 0; 1]; OBool true; OInt 1; OText [240; 159; 152; 128]])) = true.
+Proof. vm_compute. reflexivity. Qed.
+Example ex_two_calls :
+  let c1 := OCont (CScope [99; 97; 108; 108]) [OInt 1; OList [ORef 1]] in
+  let c2 := OCont (CScope [99; 97; 108; 108]) [OInt 2; OList [ORef 4]] in
+  wf_list false [] [] 0 [c1; c2] = Some [] /\
+  unslice false 0 (slice_list 0 [c1; OCont (CScope [99; 97; 108; 108]) [OInt 2; OList [ORef 1]]]) = None.
+Proof. vm_compute. split; reflexivity. Qed.
+Example ex_vocab : NoDup (map snd [([108; 105; 115; 116], 0); ([97], 1)]).
+Proof. repeat constructor; cbn; intuition discriminate. Qed.
